@@ -8,7 +8,7 @@ V=$(cd "$(dirname "$0")/.." && pwd)
 wt=/tmp/tryseed-$pid-$$
 vc=/tmp/tryseed-verif-$pid-$$
 git -C /repo worktree add -q --detach "$wt" HEAD || exit 2
-git -C "$wt" apply "$patch" || { git -C /repo worktree remove --force "$wt"; echo "patch does not apply"; exit 2; }
+git -C "$wt" apply "$patch" 2>/dev/null || git -C "$wt" apply --3way "$patch" || { git -C /repo worktree remove --force "$wt"; echo "patch does not apply"; exit 2; }
 mkdir -p "$vc" && rsync -a --exclude .git --exclude replays --exclude 'evidence/.scratch' --exclude 'lean/.audit' "$V"/ "$vc"/ || exit 2
 cd "$vc" || exit 2
 st=0
